@@ -327,6 +327,10 @@ func (w *World) genOp(r *rand.Rand, c Config) Action {
 			return w.genDelegate(r)
 		}
 		p := pick(r, ps)
+		if r.Intn(14) == 0 {
+			// every holder of the asset leaves: staking cycles that end at a zero total (dust resets, C03)
+			return Action{Kind: "drain", D: p.d}
+		}
 		bal := w.balanceOf(p).BigInt()
 		return Action{Kind: "undelegate", U: p.u, V: p.v, D: p.d, Amt: w.withdrawAmount(r, bal)}
 	case "redelegate":
